@@ -17,6 +17,7 @@ from rv.core import vio
 from rv.instrument import patch
 from rv.oracles import truth_motion as TM
 from rv.oracles import wgs84 as W
+from rv.workloads import forms
 
 ID = 'C03'
 RULE = ('seeded analytic truth motions (|lat|<=85 both hemispheres, speed <=300 m/s, 3-axis attitude sinusoids) sampled at h in '
@@ -26,7 +27,7 @@ RULE = ('seeded analytic truth motions (|lat|<=85 both hemispheres, speed <=300 
 ASSUMPTIONS = ['accelerometer floor 100 eps R / h^2: the readings come from a spline second derivative of a 6.4e6 m vector (measured at rest: '
                '~20 eps R / h^2)', 'samples within 12 knots of either end carry spline end-condition error (decays ~0.27 per knot) and are '
                'checked with the shrink test only', 'for increment type the duplicated first sample is not compared']
-REQUIRED_OBS = ['long_closed_paths', 'closed_latitude_paths', 'accel_increment_order_checked', 'increment_order_checked', 'reading_ladders', 'trajectory_ladders', 'inversion_ladders', 'at_rest_checked', 'sine_motion_checked', 'forms_compared',
+REQUIRED_OBS = ['stamps_not_from_zero', 'rest_stamps_not_from_zero', 'rest_stamps_irregular', 'long_closed_paths', 'closed_latitude_paths', 'accel_increment_order_checked', 'increment_order_checked', 'reading_ladders', 'trajectory_ladders', 'inversion_ladders', 'at_rest_checked', 'sine_motion_checked', 'forms_compared',
                 'readings_above_floor']
 REQUIRED_CLASSES = {'all': ['motion', 'rest', 'sine', 'long_closed']}
 EPS = np.finfo(float).eps
@@ -100,14 +101,23 @@ def run_motion(case, out, obs):
     m, ex = TM.random_motion(rng, T, aggressive=0.7, closed=closed)
     obs['closed_latitude_paths'] = int(closed)
     runs = {}
+    # the stamps need not start at zero (a segment of a longer record): the motion is sampled at stamp - t0, only the labels move
+    t0 = float(np.random.Generator(np.random.PCG64(case['seed'] + 31)).choice([0.0, 0.0, 120.0, 777.25]))
+    obs['stamps_not_from_zero'] = int(t0 != 0)
     for k, hh in enumerate((h, h / 2)):
         n = int(round(T / hh))
-        tt = np.arange(n + 1) * hh
+        stamps = t0 + np.arange(n + 1) * hh
+        tt = stamps - t0
         tr = m.trajectory(tt)
         lla, rph, vel = tr[LLA].values, tr[RPH].values, tr[VEL].values
         for form, (a, b) in {'pos+vel': (lla, vel), 'pos': (lla, None), 'init+vel': (lla[0].copy(), vel)}.items():
             for st in ('rate', 'increment'):
-                rt, imu = sim.generate_imu(tt, a, rph, b, sensor_type=st)
+                rt, imu = sim.generate_imu(stamps, a, rph, b, sensor_type=st)
+                if not (np.array_equal(np.asarray(imu.index), stamps) and np.array_equal(np.asarray(rt.index), stamps)):
+                    out.append(vio('schema', f'generate_imu results are not stamped with the supplied times (t0={t0})'))
+                    return dict(h=h, T=T)
+                rt = rt.set_axis(pd.Index(tt, name=rt.index.name))
+                imu = imu.set_axis(pd.Index(tt, name=imu.index.name))
                 runs[(form, st, k)] = (tt, tr, rt, imu, m.imu(tt, st))
     fl_gyro_rate = 1e-11
     interior_err = {}
@@ -224,7 +234,13 @@ def run_rest(case, out, obs):
     rng = np.random.Generator(np.random.PCG64(case['seed']))
     h = case['h']
     n = 120
-    tt = np.arange(n) * h
+    frng = np.random.Generator(np.random.PCG64(case['seed'] + 31))
+    t0 = float(frng.choice([0.0, 120.0, 3600.0, 86400.0]))
+    mode = str(frng.choice(['uniform', 'uniform', 'jitter', 'two_rate']))
+    tt = forms.stamps(n - 1, h, frng, mode, t0=t0)
+    obs['rest_stamps_not_from_zero'] = int(t0 != 0)
+    obs['rest_stamps_irregular'] = int(mode != 'uniform')
+    hmin = float(np.diff(tt).min())
     lla = np.array([rng.uniform(-85, 85), rng.uniform(-180, 180), rng.uniform(-500, 20000)])
     rph = np.array([rng.uniform(-180, 180), rng.uniform(-85, 85), rng.uniform(-180, 180)])
     r, p, hd = np.deg2rad(rph)
@@ -234,11 +250,12 @@ def run_rest(case, out, obs):
     w = C.T @ W.rate_n(lla[0])
     f = -C.T @ np.array([0, 0, W.gravity(lla[0], lla[2])])
     L, Rr, V = np.tile(lla, (n, 1)), np.tile(rph, (n, 1)), np.zeros((n, 3))
-    tol_a = 100 * EPS * 6.4e6 / h ** 2
+    # rounding of the position (eps * 6.4e6 m) and of the stamps themselves (eps * t0 at the inertial speed ~465 m/s), differentiated twice
+    tol_a = 100 * EPS * (6.4e6 + 465.0 * tt[-1]) / hmin ** 2
     for form, (a, b) in {'pos+vel': (L, V), 'pos': (L, None), 'init+vel': (lla.copy(), V)}.items():
         for st in ('rate', 'increment'):
             tr, imu = sim.generate_imu(tt, a, Rr, b, sensor_type=st)
-            sc = h if st == 'increment' else 1.0
+            sc = np.r_[tt[1] - tt[0], np.diff(tt)][:, None] if st == 'increment' else 1.0
             eg = np.abs(imu[GY].values / sc - w).max()
             ea = np.abs(imu[AC].values / sc - f).max()
             obs['at_rest_checked'] = obs.get('at_rest_checked', 0) + 1
@@ -249,7 +266,7 @@ def run_rest(case, out, obs):
                 out.append(vio('rest_accel', f'body at rest: accelerometer differs from -C^T g_n by {ea:.3e} m/s^2 (tol {tol_a:.1e}); form={form} sensor={st} '
                                f'lla={lla.tolist()} rph={rph.tolist()} h={h}'))
             pe, ve = pos_vel_err(tr, pd.DataFrame(np.column_stack([L, V, Rr]), index=tr.index, columns=LLA + VEL + RPH))
-            if pe.max() > 1e-6 or ve.max() > 100 * EPS * 6.4e6 / h:
+            if pe.max() > 1e-6 or ve.max() > 100 * EPS * 6.4e6 / hmin:
                 out.append(vio('rest_trajectory', f'body at rest: returned trajectory moves ({pe.max():.2e} m, {ve.max():.2e} m/s); form={form}'))
     return dict(h=h, lla=lla.tolist(), rph=rph.tolist())
 
